@@ -119,7 +119,11 @@ func (c *Ctx) invoke(st *State, in ssa.Instruction, cc *ssa.CallCommon, fnv Valu
 			callee = c.Eng.Prog.MethodValue(sel)
 			args = append([]Value{iv.Val}, args...)
 		} else {
-			c.safety(st, in, "nil-deref", Not(Eq(iv.Sym, IntC(0))))
+			if c.assumedNonNilIface(cc) {
+				st.assume(Not(Eq(iv.Sym, IntC(0))))
+			} else {
+				c.safety(st, in, "nil-deref", Not(Eq(iv.Sym, IntC(0))))
+			}
 			// abstract interface method: needs an assumed contract keyed by interface type + method
 			key := ifaceMethodKey(cc)
 			sp := c.Eng.Specs.Funcs[key]
@@ -1132,6 +1136,25 @@ func mentionsIdent(e *SExpr, names map[string]bool) bool {
 	}
 	for _, a := range e.Args {
 		if mentionsIdent(a, names) {
+			return true
+		}
+	}
+	return false
+}
+
+// assumedNonNilIface: `opt assume-nonnil iface:Widget` - method calls on values of the named interface type are
+// assumed to have a non-nil receiver (application-provided objects stored in a data structure).
+func (c *Ctx) assumedNonNilIface(cc *ssa.CallCommon) bool {
+	if c.Spec == nil || c.Spec.Opts["assume-nonnil"] == "" {
+		return false
+	}
+	nt, ok := cc.Value.Type().(*types.Named)
+	if !ok {
+		return false
+	}
+	for _, n := range strings.Fields(c.Spec.Opts["assume-nonnil"]) {
+		if n == "iface:"+nt.Obj().Name() {
+			c.Assumed["values of interface "+nt.Obj().Name()+" stored in the data structure are assumed non-nil, not checked (opt assume-nonnil iface:"+nt.Obj().Name()+")"] = true
 			return true
 		}
 	}
